@@ -90,6 +90,7 @@ class CacheRunner:
         self.rec.enabled = True
         self.rec.file_ids = {}
         self.blocks = []           # open `with cache.transact()` context managers
+        self.retry = False         # pass retry=True (wait for the write lock) where the API allows
 
     # ------------------------------------------------------------------
     def cfg_line(self):
@@ -195,23 +196,23 @@ class CacheRunner:
             tag = op.get('tag')
 
             if m == 'set':
-                r = cache.set(k, arg_v, expire=ttl, read=bool(f['read']), tag=tag)
+                r = cache.set(k, arg_v, expire=ttl, read=bool(f['read']), tag=tag, retry=self.retry)
                 res = 'T' if r is True else repr(r)
             elif m == 'add':
-                r = cache.add(k, arg_v, expire=ttl, read=bool(f['read']), tag=tag)
+                r = cache.add(k, arg_v, expire=ttl, read=bool(f['read']), tag=tag, retry=self.retry)
                 res = 'T' if r is True else 'F' if r is False else repr(r)
             elif m == 'touch':
-                r = cache.touch(k, expire=ttl)
+                r = cache.touch(k, expire=ttl, retry=self.retry)
                 res = 'T' if r is True else 'F' if r is False else repr(r)
             elif m == 'incr':
                 f['delta'] = op.get('delta', 1)
                 d = op.get('default', 0)
                 f['default'] = 'n' if d is None else d
-                r = cache.incr(k, f['delta'], d)
+                r = cache.incr(k, f['delta'], d, retry=self.retry)
                 res = 'i%d' % r
             elif m == 'get':
                 f['read'] = int(op.get('read', 0))
-                r = cache.get(k, default=DEFAULT, read=bool(f['read']), expire_time=bool(et), tag=bool(tg))
+                r = cache.get(k, default=DEFAULT, read=bool(f['read']), expire_time=bool(et), tag=bool(tg), retry=self.retry)
                 res = self._flags(r, et, tg, self._val)
             elif m == 'getitem':
                 res = self._val(cache[k])
@@ -220,39 +221,39 @@ class CacheRunner:
             elif m == 'contains':
                 res = 'T' if (k in cache) else 'F'
             elif m == 'pop':
-                r = cache.pop(k, default=DEFAULT, expire_time=bool(et), tag=bool(tg))
+                r = cache.pop(k, default=DEFAULT, expire_time=bool(et), tag=bool(tg), retry=self.retry)
                 res = self._flags(r, et, tg, self._val)
             elif m == 'delitem':
                 del cache[k]
                 res = 'T'
             elif m == 'delete':
-                r = cache.delete(k)
+                r = cache.delete(k, retry=self.retry)
                 res = 'T' if r is True else 'F' if r is False else repr(r)
             elif m == 'push':
                 pfx = op.get('prefix')
                 f['prefix'] = 'n' if pfx is None else 's' + __import__('common').cps(pfx)
                 f['side'] = op.get('side', 'back')
-                r = cache.push(arg_v, prefix=pfx, side=f['side'], expire=ttl, read=bool(f['read']), tag=tag)
+                r = cache.push(arg_v, prefix=pfx, side=f['side'], expire=ttl, read=bool(f['read']), tag=tag, retry=self.retry)
                 res = codec.native(r, True) or repr(r)
             elif m in ('pull', 'peek'):
                 pfx = op.get('prefix')
                 f['prefix'] = 'n' if pfx is None else 's' + __import__('common').cps(pfx)
                 f['side'] = op.get('side', 'front')
                 fn = cache.pull if m == 'pull' else cache.peek
-                r = fn(prefix=pfx, default=DEFAULT, side=f['side'], expire_time=bool(et), tag=bool(tg))
+                r = fn(prefix=pfx, default=DEFAULT, side=f['side'], expire_time=bool(et), tag=bool(tg), retry=self.retry)
                 res = self._flags(r, et, tg, self._qpair)
             elif m == 'peekitem':
                 f['last'] = int(op.get('last', 1))
-                r = cache.peekitem(last=bool(f['last']), expire_time=bool(et), tag=bool(tg))
+                r = cache.peekitem(last=bool(f['last']), expire_time=bool(et), tag=bool(tg), retry=self.retry)
                 res = self._flags(r, et, tg, self._pair)
             elif m == 'clear':
-                res = 'i%d' % cache.clear()
+                res = 'i%d' % cache.clear(retry=self.retry)
             elif m == 'evict':
-                res = 'i%d' % cache.evict(tag)
+                res = 'i%d' % cache.evict(tag, retry=self.retry)
             elif m == 'expire':
-                res = 'i%d' % cache.expire()
+                res = 'i%d' % cache.expire(retry=self.retry)
             elif m == 'cull':
-                res = 'i%d' % cache.cull()
+                res = 'i%d' % cache.cull(retry=self.retry)
             elif m == 'iter':
                 res = '[' + ','.join(codec.render_key(x) for x in cache) + ']'
             elif m == 'riter':
